@@ -1033,4 +1033,469 @@ theorem scoped_evalPipeline (hr : RecScoped r) (env : Env) (p : Pipe) : Scoped (
   have h2 := scoped_pipelineLoop hr env
   unfold evalPipeline
   scoped_tac [h1, h2]
+theorem getRT_bind {α} (f : RT → M α) (rt : RT) : (getRT >>= f) rt = f rt rt := rfl
+
+/-- `yield content`: the closure was captured from a well-formed runtime -/
+theorem spost_invokeContent (hr : RecScoped r) (env : Env) (c : Closure) (ctxE : Option Expr) (rt : RT)
+    (h : SWF rt) (hc : ClosureOK rt.frames.length c) : SPost rt (invokeContent r env c ctxE rt) := by
+  have he := hr.evalExpr env
+  have hl := hr.execList env
+  cases c with
+  | mk body sc outer =>
+    obtain ⟨h1, h2, h3⟩ := (ClosureOK.mk_iff _ _ _ _).mp hc
+    unfold invokeContent
+    refine spost_withScopeContentD sc outer ?_ rt h h1 h2 h3
+    scoped_tac [he, hl]
+
+theorem scoped_bindYieldParams (hr : RecScoped r) (env : Env) (loc : Loc) :
+    ∀ ps, Scoped (bindYieldParams r env loc ps) := by
+  have he := hr.evalExpr env
+  intro ps
+  induction ps with
+  | nil => unfold bindYieldParams; scoped_tac
+  | cons p ps ih => unfold bindYieldParams; scoped_tac [he, ih]
+
+theorem scoped_bindBlockParams (hr : RecScoped r) (env : Env) : ∀ ps, Scoped (bindBlockParams r env ps) := by
+  have he := hr.evalExpr env
+  intro ps
+  induction ps with
+  | nil => unfold bindBlockParams; scoped_tac
+  | cons p ps ih => unfold bindBlockParams; scoped_tac [he, ih]
+
+/-- `executeYieldBlock` captures the current chain in the content closure: it is allocated now
+    and frames are never removed -/
+theorem scoped_yieldBody (hr : RecScoped r) (env : Env) (block : BlockN) (ctxE : Option Expr)
+    (content : Option (List Stmt)) : Scoped (yieldBody r env block ctxE content) := by
+  have he := hr.evalExpr env
+  have hl := hr.execList env
+  refine ⟨fun rt h => ?_⟩
+  unfold yieldBody
+  rw [getRT_bind]
+  cases content with
+  | none =>
+    refine spost_withContentND _ ?_ rt h h.content
+    scoped_tac [he, hl]
+  | some body =>
+    refine spost_withContentND _ ?_ rt h ?_
+    · scoped_tac [he, hl]
+    · intro c' hc'
+      cases hc'
+      exact (ClosureOK.mk_iff _ _ _ _).mpr ⟨h.nonempty, h.alloc, h.content⟩
+
+theorem scoped_executeYieldBlock (hr : RecScoped r) (env : Env) (loc : Loc) (block : BlockN)
+    (bp yp : List Param) (ctxE : Option Expr) (content : Option (List Stmt)) :
+    Scoped (executeYieldBlock r env loc block bp yp ctxE content) := by
+  have h1 := scoped_bindYieldParams hr env loc
+  have h2 := scoped_bindBlockParams hr env
+  have h3 := scoped_yieldBody hr env
+  unfold executeYieldBlock
+  scoped_tac [h1, h2, h3]
+
+theorem scoped_executeInclude (hr : RecScoped r) (env : Env) (loc : Loc) (nameE : Expr) (ctxE : Option Expr) :
+    Scoped (executeInclude r env loc nameE ctxE) := by
+  have he := hr.evalExpr env
+  have hl := hr.execList env
+  unfold executeInclude
+  scoped_tac [he, hl]
+
+theorem scoped_rangeBind (hr : RecScoped r) (env : Env) (set : Option SetN) (slot : Option Nat) (v : Val) :
+    Scoped (rangeBind r env set slot v) := by
+  have h1 := scoped_executeSet hr env
+  unfold rangeBind
+  scoped_tac [h1]
+
+theorem scoped_rangeLoop (hr : RecScoped r) (env : Env) (set : Option SetN) (ks vs : Option Nat)
+    (body : List Stmt) (els : Option (List Stmt)) :
+    ∀ f st first, Scoped (rangeLoop r env set ks vs body els f st first) := by
+  have hl := hr.execList env
+  have hb := scoped_rangeBind hr env set
+  intro f
+  induction f with
+  | zero => intro st first; unfold rangeLoop; scoped_tac
+  | succ f ih => intro st first; unfold rangeLoop; scoped_tac [hl, hb, ih]
+
+theorem scoped_rangeCore (hr : RecScoped r) (env : Env) (loc : Loc) (set : Option SetN) (ex : Val)
+    (body : List Stmt) (els : Option (List Stmt)) : Scoped (rangeCore r env loc set ex body els) := by
+  have h1 := scoped_rangeLoop hr env set
+  unfold rangeCore
+  scoped_tac [h1]
+
+theorem scoped_execRange (hr : RecScoped r) (env : Env) (loc : Loc) (set : Option SetN) (e : Option Expr)
+    (body : List Stmt) (els : Option (List Stmt)) : Scoped (execRange r env loc set e body els) := by
+  have he := hr.evalExpr env
+  have h1 := scoped_rangeCore hr env loc set
+  unfold execRange
+  scoped_tac [he, h1]
+
+theorem scoped_tryCatch (hr : RecScoped r) (env : Env) (hasCatch : Bool) (cv : Option Bytes)
+    (cb : Option (List Stmt)) (errVal : Val) : Scoped (tryCatch r env hasCatch cv cb errVal) := by
+  have hl := hr.execList env
+  unfold tryCatch
+  scoped_tac [hl]
+
+/-- `executeTry`: the recover handler puts the saved chain, context and content back before the
+    catch clause runs -/
+theorem scoped_executeTry (hr : RecScoped r) (env : Env) (body : List Stmt) (hasCatch : Bool)
+    (cv : Option Bytes) (cb : Option (List Stmt)) : Scoped (executeTry r env body hasCatch cv cb) := by
+  have hl := hr.execList env
+  refine ⟨fun rt h => ?_⟩
+  unfold executeTry
+  have hb := (hl body).post (tryStart rt) (h.congr rfl rfl rfl)
+  have handler : ∀ (errVal : Val) (rt2 : RT), Kept (tryStart rt) rt2 →
+      SPost rt (tryCatch r env hasCatch cv cb errVal (tryReset rt rt2)) := by
+    intro errVal rt2 k
+    have k0 : Kept rt (tryReset rt rt2) := kept_restore h k.swf k.len rfl rfl rfl
+    have hp := (scoped_tryCatch hr env hasCatch cv cb errVal).post _ k0.swf
+    revert hp
+    cases tryCatch r env hasCatch cv cb errVal (tryReset rt rt2) with
+    | ok v rt3 => intro hp; exact ⟨k0.trans hp.1, hp.2⟩
+    | err e3 rt3 => intro hp; exact k0.trans hp
+    | crash s rt3 => intro hp; exact ⟨hp.1, k0.trans hp.2⟩
+    | fuel => intro _; trivial
+    | unsupported w => intro _; trivial
+  cases hbr : r.execList env body (tryStart rt) with
+  | ok v rt2 =>
+    rw [hbr] at hb
+    obtain ⟨a1, a2, a3⟩ := appendTo_same { rt2 with writer := rt.writer } rt.writer (rt2.sink (rt.nbufs + 1)).reverse
+    exact ⟨(hb.1.congr_left (a' := rt) rfl rfl).congr_right a1 a2 a3, a2.trans hb.2⟩
+  | err e rt2 => rw [hbr] at hb; exact handler _ rt2 hb
+  | crash s rt2 => rw [hbr] at hb; exact handler _ rt2 hb.2
+  | fuel => trivial
+  | unsupported w => trivial
+
+theorem scoped_actionPipe (hr : RecScoped r) (env : Env) (pipe : Option Pipe) : Scoped (actionPipe r env pipe) := by
+  have h1 := scoped_evalPipeline hr env
+  unfold actionPipe
+  scoped_tac [h1]
+
+theorem scoped_ifBranches (hr : RecScoped r) (env : Env) (c : Expr) (t : List Stmt) (e : Option (List Stmt)) :
+    Scoped (ifBranches r env c t e) := by
+  have he := hr.evalExpr env
+  have hl := hr.execList env
+  unfold ifBranches
+  scoped_tac [he, hl]
+
+theorem scoped_execIf (hr : RecScoped r) (env : Env) (set : Option SetN) (c : Expr) (t : List Stmt)
+    (e : Option (List Stmt)) : Scoped (execIf r env set c t e) := by
+  have h1 := scoped_ifBranches hr env
+  have h2 := scoped_executeAssign hr env
+  unfold execIf
+  scoped_tac [h1, h2]
+
+theorem scoped_execYield (hr : RecScoped r) (env : Env) (loc : Loc) (name : Bytes) (params : Option (List Param))
+    (ctxE : Option Expr) (content : Option (List Stmt)) (isContent : Bool) :
+    Scoped (execYield r env loc name params ctxE content isContent) := by
+  have h2 := scoped_executeYieldBlock hr env
+  unfold execYield
+  split
+  · refine ⟨fun rt h => ?_⟩
+    rw [getRT_bind]
+    cases hc : rt.content with
+    | none => exact ⟨Kept.refl h, rfl⟩
+    | some c => exact spost_invokeContent hr env c ctxE rt h (h.content c hc)
+  · scoped_tac [h2]
+
+theorem scoped_execBlock (hr : RecScoped r) (env : Env) (loc : Loc) (name : Bytes) (params : List Param)
+    (ctxE : Option Expr) (body : List Stmt) (content : Option (List Stmt)) :
+    Scoped (execBlock r env loc name params ctxE body content) := by
+  have h2 := scoped_executeYieldBlock hr env
+  unfold execBlock
+  scoped_tac [h2]
+/-! ### statement lists: the let-scope a list opens is released by a deferred function -/
+
+/-- how a failing statement leaves the chain: it ends in the chain the statement started from, and
+    if the statement opened the list's let-scope (`o`) it is strictly longer -/
+structure FailRel (o : Bool) (rt rt' : RT) : Prop where
+  swf : SWF rt'
+  len : rt.frames.length ≤ rt'.frames.length
+  suffix : ∃ xs, rt'.scope = xs ++ rt.scope ∧ (o = true → xs ≠ [])
+
+/-- outcome of something that may open the list's let-scope: `o` says whether it does, `b` is the
+    flag before, `flag` reads the flag after out of the result -/
+def SPostO {α} (flag : α → Bool) (o b : Bool) (rt : RT) : Res α → Prop
+  | .ok x rt' => SWF rt' ∧ rt.frames.length ≤ rt'.frames.length ∧
+      (if o = true then flag x = true ∧ ∃ id, rt'.scope = id :: rt.scope
+       else flag x = b ∧ rt'.scope = rt.scope)
+  | .err _ rt' => FailRel o rt rt'
+  | .crash m rt' => ¬ ScopeMsg m ∧ FailRel o rt rt'
+  | .fuel => True
+  | .unsupported _ => True
+
+theorem FailRel.of_kept {rt rt' : RT} (k : Kept rt rt') : FailRel false rt rt' := by
+  obtain ⟨xs, hx⟩ := k.suffix
+  exact ⟨k.swf, k.len, ⟨xs, hx, fun h => by cases h⟩⟩
+
+/-- a `Scoped` computation whose result is mapped to something that hands the flag through -/
+theorem spostO_keep {α β} {m : M α} (hm : Scoped m) (flag : β → Bool) (k : α → β) (b : Bool)
+    (hk : ∀ a, flag (k a) = b) (rt : RT) (h : SWF rt) :
+    SPostO flag false b rt ((m >>= fun a => pure (k a)) rt) := by
+  have h1 := hm.post rt h
+  cases hmr : m rt with
+  | ok v rt' =>
+    rw [hmr] at h1; rw [bind_ok hmr]
+    exact ⟨h1.1.swf, h1.1.len, hk v, h1.2⟩
+  | err e rt' => rw [hmr] at h1; rw [bind_err hmr]; exact FailRel.of_kept h1
+  | crash s rt' => rw [hmr] at h1; rw [bind_crash hmr]; exact ⟨h1.1, FailRel.of_kept h1.2⟩
+  | fuel => rw [bind_fuel hmr]; trivial
+  | unsupported w => rw [bind_unsupported hmr]; trivial
+
+theorem FailRel.of_same {rt rt1 rt2 : RT} (hs1 : rt1.scope = rt.scope)
+    (hl1 : rt.frames.length ≤ rt1.frames.length) (k : Kept rt1 rt2) : FailRel false rt rt2 := by
+  obtain ⟨xs, hx⟩ := k.suffix
+  exact ⟨k.swf, Nat.le_trans hl1 k.len, ⟨xs, by rw [hx, hs1], fun h => by cases h⟩⟩
+
+theorem FailRel.of_pushed {rt rt1 rt2 : RT} {id : Nat} (hs1 : rt1.scope = id :: rt.scope)
+    (hl1 : rt.frames.length ≤ rt1.frames.length) (k : Kept rt1 rt2) : FailRel true rt rt2 := by
+  obtain ⟨xs, hx⟩ := k.suffix
+  refine ⟨k.swf, Nat.le_trans hl1 k.len, ⟨xs ++ [id], ?_, ?_⟩⟩
+  · rw [hx, hs1]; simp
+  · intro _ hnil; simp at hnil
+
+/-- `st.newScope()` followed by a `Scoped` computation, flag set: the list's let-scope is open -/
+theorem spostO_open {α β} {m : M α} (hm : Scoped m) (flag : β → Bool) (k : α → β) (b : Bool)
+    (hk : ∀ a, flag (k a) = true) (rt : RT) (h : SWF rt) :
+    SPostO flag true b rt ((newScope >>= fun _ => m >>= fun a => pure (k a)) rt) := by
+  obtain ⟨rt1, hn, h1, hs1, hl1⟩ := newScope_ok h
+  rw [bind_ok hn]
+  have h2 := hm.post rt1 h1
+  cases hmr : m rt1 with
+  | ok v rt2 =>
+    rw [hmr] at h2; rw [bind_ok hmr]
+    exact ⟨h2.1.swf, Nat.le_trans hl1 h2.1.len, hk v, ⟨_, h2.2.trans hs1⟩⟩
+  | err e rt2 => rw [hmr] at h2; rw [bind_err hmr]; exact FailRel.of_pushed hs1 hl1 h2
+  | crash s rt2 => rw [hmr] at h2; rw [bind_crash hmr]; exact ⟨h2.1, FailRel.of_pushed hs1 hl1 h2.2⟩
+  | fuel => rw [bind_fuel hmr]; trivial
+  | unsupported w => rw [bind_unsupported hmr]; trivial
+
+/-- does this action's assignment open the list's let-scope? -/
+def opensSet (set : Option SetN) : Bool :=
+  match set with
+  | some st => st.isLet
+  | none => false
+
+theorem stmtOpensLet_action (loc : Loc) (set : Option SetN) (pipe : Option Pipe) :
+    stmtOpensLet (.action loc set pipe) = opensSet set := by
+  cases set <;> rfl
+
+theorem spost_actionSet (hr : RecScoped r) (env : Env) (b : Bool) (set : Option SetN) (rt : RT) (h : SWF rt) :
+    SPostO id (!b && opensSet set) b rt (actionSet r env b set rt) := by
+  have ha := scoped_executeAssign hr env
+  cases set with
+  | none =>
+    have : (!b && opensSet none) = false := by cases b <;> rfl
+    rw [this]
+    exact ⟨h, Nat.le_refl _, rfl, rfl⟩
+  | some st =>
+    unfold actionSet
+    dsimp only [opensSet]
+    cases hl : st.isLet with
+    | false =>
+      rw [Bool.and_false]
+      exact spostO_keep (ha st) id (fun _ => b) b (fun _ => rfl) rt h
+    | true =>
+      cases b with
+      | false => exact spostO_open (ha st) id (fun _ => true) false (fun _ => rfl) rt h
+      | true => exact spostO_keep (ha st) id (fun _ => true) true (fun _ => rfl) rt h
+
+/-- the new `inNewScope` flag in a statement's result -/
+def stmtFlag (x : Val × Val × Bool) : Bool := x.2.2
+
+theorem spost_execStmt (hr : RecScoped r) (env : Env) (b : Bool) (s : Stmt) (rt : RT) (h : SWF rt) :
+    SPostO stmtFlag (!b && stmtOpensLet s) b rt (execStmt r env b s rt) := by
+  have nf : ∀ s', stmtOpensLet s' = false → (!b && stmtOpensLet s') = false := by
+    intro s' hs'; rw [hs', Bool.and_false]
+  cases s with
+  | text loc bts =>
+    rw [nf _ rfl]
+    exact spostO_keep (scoped_writeLit bts) stmtFlag (fun _ => (Val.invalid, Val.invalid, b)) b (fun _ => rfl) rt h
+  | action loc set pipe =>
+    rw [stmtOpensLet_action]
+    unfold execStmt
+    dsimp only
+    have h1 := spost_actionSet hr env b set rt h
+    cases hs : actionSet r env b set rt with
+    | ok ins rt1 =>
+      rw [hs] at h1
+      rw [bind_ok hs]
+      obtain ⟨w1, l1, o1⟩ := h1
+      have h2 := (scoped_actionPipe hr env pipe).post rt1 w1
+      cases hp : actionPipe r env pipe rt1 with
+      | ok u rt2 =>
+        rw [hp] at h2
+        rw [bind_ok hp]
+        refine ⟨h2.1.swf, Nat.le_trans l1 h2.1.len, ?_⟩
+        show if (!b && opensSet set) = true then ins = true ∧ ∃ id, rt2.scope = id :: rt.scope
+          else ins = b ∧ rt2.scope = rt.scope
+        rw [h2.2]
+        exact o1
+      | err e rt2 =>
+        rw [hp] at h2; rw [bind_err hp]
+        cases ho : (!b && opensSet set) with
+        | false =>
+          rw [ho] at o1
+          exact FailRel.of_same o1.2 l1 h2
+        | true =>
+          rw [ho] at o1
+          obtain ⟨_, id, hid⟩ := o1
+          exact FailRel.of_pushed hid l1 h2
+      | crash m rt2 =>
+        rw [hp] at h2; rw [bind_crash hp]
+        refine ⟨h2.1, ?_⟩
+        cases ho : (!b && opensSet set) with
+        | false =>
+          rw [ho] at o1
+          exact FailRel.of_same o1.2 l1 h2.2
+        | true =>
+          rw [ho] at o1
+          obtain ⟨_, id, hid⟩ := o1
+          exact FailRel.of_pushed hid l1 h2.2
+      | fuel => rw [bind_fuel hp]; trivial
+      | unsupported w => rw [bind_unsupported hp]; trivial
+    | err e rt1 => rw [hs] at h1; rw [bind_err hs]; exact h1
+    | crash m rt1 => rw [hs] at h1; rw [bind_crash hs]; exact h1
+    | fuel => rw [bind_fuel hs]; trivial
+    | unsupported w => rw [bind_unsupported hs]; trivial
+  | ifS loc set cond thn els =>
+    rw [nf _ rfl]
+    exact spostO_keep (scoped_execIf hr env set cond thn els) stmtFlag (fun ret => (ret, Val.invalid, b)) b (fun _ => rfl) rt h
+  | rangeS loc set e body els =>
+    rw [nf _ rfl]
+    exact spostO_keep (scoped_execRange hr env loc set e body els) stmtFlag (fun ret => (ret, Val.invalid, b)) b (fun _ => rfl) rt h
+  | block loc name params ctx body content =>
+    rw [nf _ rfl]
+    exact spostO_keep (scoped_execBlock hr env loc name params ctx body content) stmtFlag (fun _ => (Val.invalid, Val.invalid, b)) b (fun _ => rfl) rt h
+  | yield loc name params ctx content isContent =>
+    rw [nf _ rfl]
+    exact spostO_keep (scoped_execYield hr env loc name params ctx content isContent) stmtFlag (fun _ => (Val.invalid, Val.invalid, b)) b (fun _ => rfl) rt h
+  | «include» loc name ctx =>
+    rw [nf _ rfl]
+    exact spostO_keep (scoped_executeInclude hr env loc name ctx) stmtFlag (fun ret => (ret, Val.invalid, b)) b (fun _ => rfl) rt h
+  | tryS loc body hc cv cb =>
+    rw [nf _ rfl]
+    exact spostO_keep (scoped_executeTry hr env body hc cv cb) stmtFlag (fun ret => (ret, Val.invalid, b)) b (fun _ => rfl) rt h
+  | ret loc e =>
+    rw [nf _ rfl]
+    exact spostO_keep (hr.evalExpr env e) stmtFlag (fun v => (Val.invalid, v, b)) b (fun _ => rfl) rt h
+
+/-- outcome of the statement loop relative to the runtime `a` the LIST started from -/
+def SPostGo (a : RT) : Res (Val × Bool) → Prop
+  | .ok x rt' => SWF rt' ∧ a.frames.length ≤ rt'.frames.length ∧
+      (x.2 = true → ∃ id, rt'.scope = id :: a.scope) ∧ (x.2 = false → rt'.scope = a.scope)
+  | .err _ rt' => Kept a rt'
+  | .crash m rt' => ¬ ScopeMsg m ∧ Kept a rt'
+  | .fuel => True
+  | .unsupported _ => True
+
+theorem exists_concat_of_ne_nil {α} : ∀ xs : List α, xs ≠ [] → ∃ ys y, xs = ys ++ [y]
+  | [], h => absurd rfl h
+  | [x], _ => ⟨[], x, rfl⟩
+  | x :: y :: t, _ =>
+    let ⟨ys, z, h⟩ := exists_concat_of_ne_nil (y :: t) (by simp)
+    ⟨x :: ys, z, by rw [h]; rfl⟩
+
+/-- the deferred `releaseScope` of a list, run because a statement failed: if it was registered
+    (`b || opens`) the chain it sees is at least one level above the chain the list started from -/
+theorem kept_fail_pop {a rt rt1 : RT} {b opens : Bool} (ha : SWF a) (hla : a.frames.length ≤ rt.frames.length)
+    (hb1 : b = true → ∃ id, rt.scope = id :: a.scope) (hb2 : b = false → rt.scope = a.scope)
+    (f : FailRel (!b && opens) rt rt1) :
+    Kept a (if (b || opens) = true then popScope rt1 else rt1) := by
+  obtain ⟨xs, hx, hne⟩ := f.suffix
+  have hl : a.frames.length ≤ rt1.frames.length := Nat.le_trans hla f.len
+  cases b with
+  | true =>
+    obtain ⟨id, hid⟩ := hb1 rfl
+    show Kept a (popScope rt1)
+    exact kept_popScope ha f.swf hl ⟨xs, by rw [hx, hid]⟩
+  | false =>
+    have hs := hb2 rfl
+    cases opens with
+    | false =>
+      show Kept a rt1
+      exact ⟨f.swf, hl, ⟨xs, by rw [hx, hs]⟩⟩
+    | true =>
+      obtain ⟨ys, y, hy⟩ := exists_concat_of_ne_nil xs (hne rfl)
+      show Kept a (popScope rt1)
+      exact kept_popScope (id := y) ha f.swf hl ⟨ys, by rw [hx, hs, hy]; simp⟩
+
+theorem spost_execListGo (hr : RecScoped r) (env : Env) :
+    ∀ (l : List Stmt) (rv : Val) (b : Bool) (rt a : RT), SWF a → SWF rt →
+      a.frames.length ≤ rt.frames.length →
+      (b = true → ∃ id, rt.scope = id :: a.scope) → (b = false → rt.scope = a.scope) →
+      SPostGo a (execListGo r env l rv b rt) := by
+  intro l
+  induction l with
+  | nil => intro rv b rt a _ hrt hl hb1 hb2; exact ⟨hrt, hl, hb1, hb2⟩
+  | cons s rest ih =>
+    intro rv b rt a ha hrt hl hb1 hb2
+    unfold execListGo
+    have h1 := spost_execStmt hr env b s rt hrt
+    cases hs : execStmt r env b s rt with
+    | ok x rt1 =>
+      rw [hs] at h1
+      obtain ⟨ret, rv2, ins⟩ := x
+      obtain ⟨w1, l1, o1⟩ := h1
+      dsimp only
+      apply ih _ ins rt1 a ha w1 (Nat.le_trans hl l1)
+      · intro hins
+        cases ho : (!b && stmtOpensLet s) with
+        | true =>
+          rw [ho] at o1
+          obtain ⟨_, id, hid⟩ := o1
+          have hb : b = false := by cases b <;> simp_all
+          exact ⟨id, by rw [hid, hb2 hb]⟩
+        | false =>
+          rw [ho] at o1
+          have hb : b = true := by rw [← o1.1]; exact hins
+          obtain ⟨id, hid⟩ := hb1 hb
+          exact ⟨id, by rw [o1.2, hid]⟩
+      · intro hins
+        cases ho : (!b && stmtOpensLet s) with
+        | true =>
+          rw [ho] at o1
+          have : stmtFlag (ret, rv2, ins) = true := o1.1
+          rw [show stmtFlag (ret, rv2, ins) = ins from rfl, hins] at this
+          cases this
+        | false =>
+          rw [ho] at o1
+          have hb : b = false := by rw [← o1.1]; exact hins
+          rw [o1.2, hb2 hb]
+    | err e rt1 => rw [hs] at h1; exact kept_fail_pop ha hl hb1 hb2 h1
+    | crash m rt1 => rw [hs] at h1; exact ⟨h1.1, kept_fail_pop ha hl hb1 hb2 h1.2⟩
+    | fuel => trivial
+    | unsupported w => trivial
+
+/-- `executeList`: however the list ends, the chain ends in the chain it started from; on success
+    it is that chain -/
+theorem scoped_execListF (hr : RecScoped r) (env : Env) (l : List Stmt) : Scoped (execListF r env l) := by
+  refine ⟨fun rt h => ?_⟩
+  unfold execListF
+  have h1 := spost_execListGo hr env l .invalid false rt rt h h (Nat.le_refl _)
+    (fun hb => by cases hb) (fun _ => rfl)
+  cases hg : execListGo r env l .invalid false rt with
+  | ok x rt1 =>
+    rw [hg] at h1
+    obtain ⟨v, ins⟩ := x
+    obtain ⟨w1, l1, o1, o2⟩ := h1
+    cases ins with
+    | false => exact ⟨⟨w1, l1, ⟨[], o2 rfl⟩⟩, o2 rfl⟩
+    | true =>
+      obtain ⟨id, hid⟩ := o1 rfl
+      refine ⟨kept_popScope h w1 l1 ⟨[], hid⟩, ?_⟩
+      show (popScope rt1).scope = rt.scope
+      rw [(popScope_same rt1).2.2, hid]; rfl
+  | err e rt1 => rw [hg] at h1; exact h1
+  | crash m rt1 => rw [hg] at h1; exact h1
+  | fuel => trivial
+  | unsupported w => trivial
+
+/-- one level of the interpreter preserves the invariant -/
+theorem recScoped_step (hr : RecScoped r) : RecScoped (stepRec r) :=
+  ⟨fun env e => scoped_evalExprF hr env e, fun env l => scoped_execListF hr env l,
+   fun env e => scoped_isSetF hr env e⟩
+
+/-- the invariant holds at every fuel level -/
+theorem recScoped_recAt : ∀ n, RecScoped (recAt n)
+  | 0 => recScoped_bottom
+  | n + 1 => recScoped_step (recScoped_recAt n)
+
 end JetVerif.Eval
